@@ -36,7 +36,7 @@ from embit.liquid.transaction import LTransaction, LTransactionInput, LTransacti
 from embit.util import secp256k1 as real_secp
 
 PROP = "C18"
-MODS = ["EmbitModel.Props.C18"]
+MODS = ["EmbitModel.Props.C18", "EmbitModel.Props.C18X"]
 
 
 # ================================================================ A. transaction codec
@@ -209,6 +209,15 @@ def check_pset_lossless(c, b, p, kind):
             return
         if len(set(k for k, _ in a)) != len(a):
             c.fail("duplicate key (or two spellings of one field) accepted in scope %d" % si, dict(rec, scope=si))
+            return
+        if si > 0 and ca != cd:
+            # C18X.pset_parse_lossless: what write_to emits for a scope is a PERMUTATION of what was read (nothing invented)
+            extra = [kvp for kvp in cd if cd[kvp] > ca[kvp]]
+            c.fail("re-serialised scope %d contains a pair that was not read" % si,
+                   dict(rec, scope=si, extra=[(hx(k), hx(v)[:200]) for k, v in extra[:3]]))
+            return
+        if len(set(k for k, _ in d)) != len(d):
+            c.fail("write_to emits a key twice in scope %d" % si, dict(rec, scope=si))
             return
     g = dict(orig[0]).get(b"\x00")
     if g is not None and any(i.issue_value or i.issue_commitment for i in p.inputs):
@@ -738,6 +747,114 @@ def explore_addresses(c, n):
     c.flush()
 
 
+# ================================================================ G. base58 Liquid addresses (C18X section 3), witnesses
+
+from embit import base58 as real_b58
+
+B58_NETS = ["liquidv1", "elementsregtest", "liquidtestnet", "main", "test", "regtest", "signet"]
+
+
+def py_route(addr):
+    """the dispatch of addr_decode, restated (independent of the model): which branch does the text take?"""
+    if addr == "Fee":
+        return "fee"
+    h = addr.split("1")[0].lower()
+    if h in [n.get("blech32") for n in addresses.NETWORKS.values()]:
+        return "blech32"
+    if h in [n.get("bech32") for n in addresses.NETWORKS.values()]:
+        return "bech32"
+    return "base58"
+
+
+def impl_route(addr):
+    r = py_route(addr)
+    if r != "base58":
+        return r
+    try:
+        sc, pk = addresses.addr_decode(addr)
+        return "ok %s %s" % (hx(sc.data), "None" if pk is None else hx(pk.sec()))
+    except Exception:
+        return "none"
+
+
+def explore_b58_addresses(c, n):
+    rng = c.rng
+    # the prefix table the theorems are about must be the one of the loaded module
+    tab = " ".join("%s:%s:%s:%s:%s" % (k, v["p2sh"].hex(), v["bp2sh"].hex() if "bp2sh" in v else "None", v["bech32"],
+                                       v.get("blech32", "None")) for k, v in addresses.NETWORKS.items())
+    c.count(("laddr-nets",), nontrivial=True)
+    c.expect("laddr.nets", "ok " + tab, {"what": "liquid.networks.NETWORKS prefixes"}, proven=False)
+    for k in range(n):
+        name = rng.choice(B58_NETS[:3]) if rng.random() < 0.8 else rng.choice(B58_NETS)
+        net = addresses.NETWORKS[name]
+        pub = real_ec.PrivateKey(gen.rbytes(rng, 32)).get_public_key() if rng.random() < 0.75 else None
+        r = rng.random()
+        h = gen.rbytes(rng, 20) if r < 0.8 else bytes([rng.choice([0, 255])]) * 20
+        spk = b"\xa9\x14" + h + b"\x87"
+        if r > 0.95:
+            spk = rng.choice([b"", b"\xa9\x14" + h, b"\xa9\x14" + h + b"\x88", b"\x00\x14" + h])
+        try:
+            a = addresses.address(Script(spk), pub, net)
+        except Exception:
+            a = None
+        if a is not None and (spk == b"" or Script(spk).script_type() != "p2sh"):
+            a = None          # "Fee" / segwit branch: not this op (the model answers none as well)
+        c.count(("laddr-b58", name, spk, None if pub is None else pub.sec()), nontrivial=True)
+        c.tally("laddr-b58:%s:%s" % (name, "conf" if pub else "plain"))
+        c.expect("laddr.p2sh %s %s %s" % (name, hx(spk), "None" if pub is None else hx(pub.sec())),
+                 "none" if a is None else "ok " + hx(a.encode()), {"net": name, "spk": hx(spk)}, proven=False)
+        if a is None:
+            continue
+        # the property on embit alone
+        try:
+            sc, pk = addresses.addr_decode(a)
+            good = sc.data == spk and ((pk is None) if pub is None else (pk is not None and pk.sec() == pub.sec()))
+        except Exception:
+            good = False
+        if not good:
+            c.fail("base58 Liquid address does not decode to the script and blinding key it was made from",
+                   {"op": "laddr.b58", "addr": a, "spk": hx(spk), "net": name})
+        j = rng.randrange(len(a))
+        variants = [a, a[:-1], a + "1", a[0].swapcase() + a[1:], a[:j] + rng.choice(real_b58.B58_DIGITS) + a[j + 1:],
+                    a[:j] + rng.choice("0OIl+ ") + a[j + 1:]]
+        for v in variants:
+            c.expect("laddr.route " + hx(v.encode()), impl_route(v), {"addr": v}, proven=False)
+    # payloads of unusual length / lookalike prefixes, straight through base58check
+    for k in range(max(10, n // 3)):
+        r = rng.random()
+        pre = rng.choice([b"\x0c\x27", b"\x04\x4b", b"\x17\x13", b"\x27", b"\x4b", b"\x13", b"\x05", b"\xc4", b"\x0c", b"\x00", b""])
+        body = gen.rbytes(rng, rng.choice([0, 1, 19, 20, 21, 33, 52, 53, 54]))
+        if r < 0.5 and len(pre) == 2:
+            body = real_ec.PrivateKey(gen.rbytes(rng, 32)).sec() + gen.rbytes(rng, rng.choice([0, 19, 20, 21]))
+        a = real_b58.encode_check(pre + body)
+        c.count(("laddr-b58raw", a), nontrivial=True)
+        c.expect("laddr.route " + hx(a.encode()), impl_route(a), {"addr": a}, proven=False)
+    for t in ["", "Fee", "fee", "ex1", "Ex1qq", "LQ1abc", "Bc1xyz", "bcrt1", "B1abc", "el1", "EL1", "tLq1", "1", "11", "3", "V", "ert", "lq"]:
+        c.count(("laddr-route-hand", t), nontrivial=True)
+        c.expect("laddr.route " + (hx(t.encode()) if t else "-"), impl_route(t), {"addr": t}, proven=False)
+    c.flush()
+
+
+def witnesses(c):
+    """the witness points of the C18X theorems, replayed on embit and on the model"""
+    from embit.liquid.transaction import LTransaction, LTransactionInput, LTransactionOutput
+    # pset_v0_tx_dropped_D53: version-0 PSET whose global transaction has a peg-in input
+    tx = LTransaction(2, [LTransactionInput(bytes([7]) * 32, 1, Script(b""), 0xfffffffd, is_pegin=True)],
+                      [LTransactionOutput(bytes([4]) * 32, 1000, Script(b"\x51"))], 0)
+    g = tx.serialize()
+    b = b"pset\xff" + bytes([1, 0, len(g)]) + g + b"\x00" + b"\x00" + b"\x00"
+    p = impl_pset_parse(b)
+    c.count(("witness-d53",), nontrivial=True)
+    if p is None or p.tx.serialize() == g or p.tx.vin[0].is_pegin:
+        c.tally("witness:D53-not-reproduced")
+        c.fail("witness of C18X.pset_v0_tx_dropped_D53 does not reproduce on embit (D53 repaired? then the _partial "
+               "statement can be strengthened)", {"op": "witness", "bytes": hx(b)})
+    else:
+        c.tally("witness:D53-reproduced")
+    check_pset_bytes(c, "witness-D53", b)     # model = code; the predicate failure is classified as known finding D53
+    c.flush()
+
+
 # ================================================================ corpus / run
 
 def corpus(c):
@@ -794,6 +911,8 @@ def run(tier, seed):
         explore_verify_logic(c, 4000)
         explore_blind_flow(c, 600)
         explore_addresses(c, 150)
+        explore_b58_addresses(c, 150)
+        witnesses(c)
         real_library(c, 150)
     else:
         explore_ltx(c, 1500, True, 50)
@@ -801,6 +920,8 @@ def run(tier, seed):
         explore_verify_logic(c, 60000)
         explore_blind_flow(c, 8000)
         explore_addresses(c, 1500)
+        explore_b58_addresses(c, 1500)
+        witnesses(c)
         real_library(c, 1500)
 
     def search(cc):
